@@ -1,5 +1,6 @@
 '''C06 Index set algebra and label alignment of binary operators.'''
 from sfa.report import Ctx
+from sfa.rules import resolve
 from sfa.rules import symm
 from sfa.rules import alignrules
 from sfa.rules import table
@@ -14,7 +15,7 @@ LEVEL_TEXT = (
     '(c) Every early return of _ufunc_set_1d/_2d that hands back an operand or an empty array does so only under the conditions set '
     'algebra allows and, for operands, only under assume_unique; the 1-D and 2-D functions take the same shortcuts; assume_unique=True '
     'reaches the set functions only with operands that are index values (or a computed uniqueness flag / pass-through). '
-    '(d) No axis crossing: wherever own axis labels are related (equals / union / from_correspondence / comparisons) to an `index` / `columns` parameter it is the parameter of the same axis — the alignment shortcuts of reindex and concatenation. Reindex correspondence: per path, IndexCorrespondence.iloc_src / iloc_dst are read only where has_common / is_subset holds (they are None otherwise, which pairs rows by position). The equality test that lets operands with equal indices skip alignment is itself checked (family H: symmetric tests, option forwarding, two-sided memo). Not decided: NumPy set-operation results, NaN labels, the values of op(a, b), IndexCorrespondence itself.')
+    '(d) No axis crossing: wherever own axis labels are related (equals / union / from_correspondence / comparisons) to an `index` / `columns` parameter it is the parameter of the same axis — the alignment shortcuts of reindex and concatenation. Reindex correspondence: per path, IndexCorrespondence.iloc_src / iloc_dst are read only where has_common / is_subset holds (they are None otherwise, which pairs rows by position). The equality test that lets operands with equal indices skip alignment is itself checked (family H: symmetric tests, option forwarding, two-sided memo). Fill arrays: util.full_for_fill (behind reindex, shift and the aligned axis of concatenation) types its array by resolving the target dtype with the dtype of the fill element on every path. Not decided: NumPy set-operation results, NaN labels, the values of op(a, b), IndexCorrespondence itself.')
 
 CLAIM = dict(
     text=LEVEL_TEXT,
@@ -31,3 +32,4 @@ def run(ctx: Ctx) -> None:
     alignrules.axis_crossing(ctx)
     alignrules.correspondence_guards(ctx)
     symm.h_equals(ctx)
+    resolve.f1_full_for_fill(ctx)
